@@ -47,7 +47,7 @@ type c01Shape struct {
 }
 
 type c01Event struct {
-	Op      string  `json:"op"`  // chunks | read | cmd
+	Op      string  `json:"op"` // chunks | read | cmd
 	Fmt     string  `json:"fmt"`
 	Via     string  `json:"via"` // chunks: reader kind; read: file gz kseq kseqgz; cmd: file stdin gz
 	Workers int     `json:"workers"`
